@@ -117,6 +117,7 @@ func checkC01(r *Run) {
 				r.violate("race-build-differs", c.Name, "", "race", "output of the -race build differs from the plain build", nil)
 			}
 		}
+		r.pluginCoverage(cases)
 		r.Counters["race-reports"] = countRaceReports(r.WS.Dir + "/out")
 		r.Notes = append(r.Notes, fmt.Sprintf("race detector: %d report files over %d plugin runs", r.Counters["race-reports"], len(rc)))
 	}
